@@ -79,6 +79,22 @@ pub fn execute_c16(scn: &W4Scn) -> RunOutcome {
         }
         let assets = w.assets();
         for step in 0..cfg.n_steps as usize {
+            for (from, to) in &cfg.halts {
+                if *from == step as u64 {
+                    w.set_trading(false);
+                    stats.fault("trading_halt");
+                }
+                if *to == step as u64 {
+                    w.set_trading(true);
+                    stats.fault("trading_resume");
+                }
+            }
+            if (0..assets).any(|a| {
+                let o = w.obs(a);
+                o.book.bid_vol > 0 && o.book.ask_vol > 0 && o.book.bid_ask.0 >= o.book.bid_ask.1
+            }) {
+                stats.probe("agents_look_at_crossed_book");
+            }
             for gi in 0..groups.len() {
                 let q0 = w.queue().len();
                 let n0: Vec<usize> = (0..assets).map(|a| w.n_orders(a)).collect();
@@ -409,9 +425,15 @@ fn momentum_run(scn: &W4Scn, mirrored: bool, stats: &mut RunStats) -> Result<Vec
             (ib, ik)
         };
         cur = cur.or(Some((ib.1, ik.1)));
-        let wr = &mut w;
-        let r = &mut rng;
-        guard(move || wr.step(r)).map_err(|m| viol(scn, "agent-abort", 0, "env.step", "no abort".into(), m))?;
+        // warm-up: the quotes become active; further idle steps before the agents' first update must not matter
+        for _ in 0..cfg.warmup.max(1) {
+            let wr = &mut w;
+            let r = &mut rng;
+            guard(move || wr.step(r)).map_err(|m| viol(scn, "agent-abort", 0, "env.step", "no abort".into(), m))?;
+        }
+        if cfg.warmup > 1 {
+            stats.probe("several_warmup_steps");
+        }
     }
     let mut out = vec![];
     let mut last_price: Option<f64> = None;
@@ -491,6 +513,14 @@ fn momentum_run(scn: &W4Scn, mirrored: bool, stats: &mut RunStats) -> Result<Vec
             let wr = &mut w;
             let r = &mut rng;
             guard(move || wr.step(r)).map_err(|mm| viol(scn, "agent-abort", step, "env.step", "no abort".into(), mm))?;
+        }
+        if cfg.extra_step_every > 0 && step % cfg.extra_step_every as usize == cfg.extra_step_every as usize - 1 {
+            // one more environment step without an agent update: the agents' signal is defined on the mid-prices they
+            // observed at their own updates
+            let wr = &mut w;
+            let r = &mut rng;
+            guard(move || wr.step(r)).map_err(|mm| viol(scn, "agent-abort", step, "env.step", "no abort".into(), mm))?;
+            stats.probe("extra_step_without_update");
         }
         stats.ops += 1;
     }
